@@ -85,8 +85,8 @@ let classify (s : z) (core : expr) : string =
 let res_text (f : trigfn) (r : tres) : string =
   match r with
   | RVal _ -> "TAB 1 " ^ fname f ^ " 0"
-  | RArg (sg, a) -> let (s, core) = signed_expr sg a in classify s core
-  | RRecip (sg, a) ->
+  | RArg (sg, _, a) -> let (s, core) = signed_expr sg a in classify s core
+  | RRecip (sg, _, a) ->
       (match a with
        | ENum _ | EMul _ | EPow _ -> "UNSUPPORTED"
        | _ -> "RECIP " ^ z_str sg ^ " " ^ dsort a)
@@ -169,11 +169,8 @@ let handle (line : string) : string =
        | _ -> "UNSUPPORTED")
   | "KD" ->
       (match nums_of rest with
-       | [a; b] ->
-           (match a, b with
-            | (NInt _ | NRat _ | NCplx _), (NInt _ | NRat _ | NCplx _) ->
-                if dump_num a = dump_num b then "(I 1)" else "(I 0)"
-            | _ -> "UNSUPPORTED")
+       | [(NInt _ | NRat _) as a; (NInt _ | NRat _) as b] ->
+           "(I " ^ z_str (kronecker_q (q_of_num a) (q_of_num b)) ^ ")"
        | _ -> "UNSUPPORTED")
   | "LC" ->
       let qs = List.map q_of_num (nums_of rest) in
